@@ -320,19 +320,28 @@ func ROptSign(c *core.Ctx) {
 		if !ok || ifs.Else == nil {
 			return true
 		}
-		id, ok := ast.Unparen(ifs.Cond).(*ast.Ident)
+		cond := ast.Unparen(ifs.Cond)
+		negated := false
+		if u, isU := cond.(*ast.UnaryExpr); isU && u.Op == token.NOT {
+			cond, negated = ast.Unparen(u.X), true
+		}
+		id, ok := cond.(*ast.Ident)
 		if !ok {
 			return true
 		}
+		var clearSide, setSide ast.Node = ifs.Body, ifs.Else
+		if negated { // if !off { set } else { clear }
+			clearSide, setSide = ifs.Else, ifs.Body
+		}
 		clears := false
-		ast.Inspect(ifs.Body, func(m ast.Node) bool {
+		ast.Inspect(clearSide, func(m ast.Node) bool {
 			if as, ok := m.(*ast.AssignStmt); ok && (as.Tok == token.AND_ASSIGN || as.Tok == token.AND_NOT_ASSIGN) {
 				clears = true
 			}
 			return true
 		})
 		sets := false
-		ast.Inspect(ifs.Else, func(m ast.Node) bool {
+		ast.Inspect(setSide, func(m ast.Node) bool {
 			if as, ok := m.(*ast.AssignStmt); ok && as.Tok == token.OR_ASSIGN {
 				sets = true
 			}
@@ -390,6 +399,51 @@ func ROptSign(c *core.Ctx) {
 				}
 			}
 			c.Check(got == w, fmt.Sprintf("scanOptions / the arm of '%c' sets the off-flag to %s", rune(v), w), cc.Pos(), "the arm assigns %s (shared with: %d label(s))", got, len(cc.List))
+		}
+		return true
+	})
+	// the same arms written as `if ch == '-' { off = true; … }` (or as clauses of a tagless switch)
+	signOf := func(cond ast.Expr) (rune, bool) {
+		be, ok := ast.Unparen(cond).(*ast.BinaryExpr)
+		if !ok || be.Op != token.EQL {
+			return 0, false
+		}
+		for _, e := range []ast.Expr{be.X, be.Y} {
+			if v, ok := core.ConstInt(info, e); ok {
+				if _, isSign := want[rune(v)]; isSign {
+					return rune(v), true
+				}
+			}
+		}
+		return 0, false
+	}
+	checkBody := func(r rune, body []ast.Stmt, pos token.Pos) {
+		if seen[r] {
+			return
+		}
+		got := "no assignment to the flag"
+		for _, st := range body {
+			if as, ok := st.(*ast.AssignStmt); ok && len(as.Lhs) == 1 && len(as.Rhs) == 1 {
+				if id, ok := as.Lhs[0].(*ast.Ident); ok && info.ObjectOf(id) == flag {
+					got = types.ExprString(as.Rhs[0])
+				}
+			}
+		}
+		seen[r] = true
+		c.Check(got == want[r], fmt.Sprintf("scanOptions / the arm of '%c' sets the off-flag to %s", r, want[r]), pos, "the arm assigns %s", got)
+	}
+	ast.Inspect(fd.Body, func(n ast.Node) bool {
+		switch x := n.(type) {
+		case *ast.IfStmt:
+			if r, ok := signOf(x.Cond); ok {
+				checkBody(r, x.Body.List, x.Pos())
+			}
+		case *ast.CaseClause:
+			if len(x.List) == 1 {
+				if r, ok := signOf(x.List[0]); ok {
+					checkBody(r, x.Body, x.Pos())
+				}
+			}
 		}
 		return true
 	})
